@@ -551,6 +551,9 @@ func c02Shape(c *fw.Ctx, ctx context.Context, w *world, p poison, n, k, variant 
 			f = p.bad(i)
 		}
 		d := append(bson.D{{Key: "_id", Value: int32(i)}, {Key: "grp", Value: "g"}}, f...)
+		// nested containers that the update also writes into (before it fails on the poison)
+		d = append(d, bson.E{Key: "cells", Value: bson.A{bson.A{int32(1), int32(2)}, bson.A{int32(3), int32(4)}}},
+			bson.E{Key: "deep", Value: bson.D{{Key: "arr", Value: bson.A{bson.D{{Key: "x", Value: int32(1)}}, bson.D{{Key: "x", Value: int32(2)}}}}}})
 		docs = append(docs, d)
 	}
 	docs = append(docs, p.extra...)
@@ -569,6 +572,21 @@ func c02Shape(c *fw.Ctx, ctx context.Context, w *world, p poison, n, k, variant 
 	// a second, unrelated secondary index so that index lists are part of the dump
 	w.exec(&drv.Op{Kind: drv.CreateIndex, DB: "d", Coll: "c", Index: drv.IndexSpec{Keys: bson.D{{Key: "grp", Value: int32(1)}, {Key: "_id", Value: int32(-1)}}}})
 	filter := bson.D{{Key: "grp", Value: "g"}}
+	// the update first writes into an array inside an array and into an array of
+	// sub-documents, then hits the poison
+	nested := bson.D{{Key: "cells.0.1", Value: int32(99)}, {Key: "deep.arr.1.x", Value: int32(77)}}
+	upd := gen.CloneDoc(p.update)
+	merged := false
+	for i := range upd {
+		if upd[i].Key == "$set" {
+			upd[i].Value = append(upd[i].Value.(bson.D), nested...)
+			merged = true
+		}
+	}
+	if !merged {
+		upd = append(bson.D{{Key: "$set", Value: nested}}, upd...)
+	}
+	p.update = upd
 	switch variant {
 	case 0, 1:
 		if variant == 1 {
